@@ -27,19 +27,19 @@ P.update({
    text="Exploration: injectivity of hash over every distinct position visited by the generated walks and their successors (10^7 scale, merged across shards), and for sampled positions ALL single-feature variations (side, 4 rights, 8-9 en-passant values, 63x10 square contents) imported from text must hash differently from the origin and each other.",
    note="A true 64-bit collision in ~10^7 positions has probability ~3e-6 and would be reported. Variations need not be sane positions.", ref="DESIGN.md §4 C05"),
  "C06": dict(tech="stateful property-based testing: generated search histories over one shared transposition table, in-process and through the UCI binary, judged by the reference model",
-   text="Exploration: histories of 1-8 searches (extend / take back / repetition shuffle / other root / ucinewgame, depth 1-5) sharing one table; every announced move must be legal in the reference model's position and no move is announced iff none is legal.",
+   text="Exploration: histories of 1-8 searches sharing one table, the game navigating between them (extend / take back / repetition shuffle / other root / ucinewgame / forced perpetual-check cycle with a single legal reply / search of the parent of a mating or stalemating move followed by the dead position / a search stopped by the hook after N polls followed by searches of every cached child and grandchild), depth 1-5, in-process and through the binary; every announced move must be legal in the reference model's position and no move is announced iff none is legal.",
    note="Depth-limited searches only; boards with more than 6 heavy pieces are skipped (quiescence is unbounded there). Trusted base: reference model.", ref="DESIGN.md §4 C06"),
  "C07": dict(tech="exhaustive enumeration of stop instants (node-entry poll index 0..64, then geometric) per generated position via the verification hook, plus UCI go/stop sessions",
-   text="Exploration / schedule enumeration: the hook flips the stop flag after exactly N node-entry polls for all N in 0..=64 and a geometric sample up to the full search; the answer must be a legal move whenever one exists and no node may be entered after the flip; through the binary: go infinite + immediate stop, go movetime 0..10, VERIF_STOP_AFTER_POLLS.",
+   text="Exploration / schedule enumeration: the hook flips the stop flag after exactly N node-entry polls for all N in 0..=64 and a geometric sample up to the full search; the answer must be a legal move whenever one exists, no node may be entered after the flip, and (sampled N) every cached child searched afterwards with the table the stopped search left must get a legal answer; through the binary: go infinite + immediate stop, go movetime 0..10, VERIF_STOP_AFTER_POLLS, and stop latency (answer within 10 s) on five fixed boards up to 9+9 queens.",
    note="Instants = node-entry polls (the only place the recursion reads the flag). Quiescence does not poll: wall-clock promptness is not asserted.", ref="DESIGN.md §4 C07"),
  "C08": dict(tech="stateful property-based testing of search termination: depth-limited histories with decisive 'info depth > N' symptom, unlimited runs on generated tiny positions with watchdog-as-stop, fixed deep limits",
-   text="Exploration: (a) histories where the depth limit is often below a depth the same position was searched to before (same table): no info depth above the limit, no panic; (b) unlimited searches of generated tiny positions and curated cages for 0.3-1.5 s, in-process and via the binary: no panic, depth strictly increasing <= 255, obeys stop within 2 s, legal answer, no flood, exit 0; then go depth 33/34/64/128/255.",
+   text="Exploration: (a) histories where the depth limit is often below a depth the same position was searched to before (same table): no info depth above the limit, no panic; (b) unlimited searches of generated tiny positions and curated cages for 0.3-1.5 s, in-process and via the binary: no panic, depth strictly increasing <= 255, obeys stop within 2 s, legal answer, no flood, exit 0; then go depth 33/34/64/128/255; bare-king positions searched to the depth ceiling and again at the end of a long game record (ceiling below the cached depth); `info depth 0` counts as a wrapped counter.",
    note="Run lengths are seconds; a watchdog without a decisive symptom is inconclusive. A search that ignores stop hangs its shard and is reported through the in-flight case.", ref="DESIGN.md §4 C08"),
  "C09": dict(tech="differential property-based testing of the optimised search (table disabled by hook) against an exhaustive negamax reference on the same generator and evaluation; metamorphic history pre-fill",
    text="Exploration: on generated positions, depth 1-4, the table-less score of get_best_move_entry equals an unpruned, unordered reference negamax with the same leaf rules (clamped +-15000), and does not change when the history table is pre-filled with generated values.",
    note="Reference uses the engine's generator and score (judged by C01/C16) but no search code. Trees above 700k reference nodes, single-reply roots and trees with a move-less quiescence node are skipped and counted.", ref="DESIGN.md §4 C09"),
  "C10": dict(tech="property-based testing with an independent mate solver as labelling oracle over generated small-material positions (and exhaustive KQK/KRK tables in thorough)",
-   text="Exploration: positions labelled mate-in-1 / forced mate-in-2 / no legal move by the reference solver; depth 3-5 (resp. 5-6) and unlimited searches must play a mating move (resp. keep a forced mate), unlimited searches must stop by themselves, dead roots must yield no move (bestmove none through the binary).",
+   text="Exploration: random small-material positions, themed positions (corner cages with minor pieces, seventh-rank pawns beside the king: promotion and under-promotion mates) and walk ends, half of them at the end of a 40-380-ply game record, labelled mate-in-1 / forced mate-in-2 / no legal move by the reference solver; depth 3-5 (resp. 5-6) and unlimited searches must play a mating move (resp. keep a forced mate), unlimited searches must stop by themselves, dead roots must yield no move (bestmove none through the binary).",
    note="'Keeps the forced mate' read as stated: a longer mate is accepted and reported as observation non_shortest. Solver budget exhaustion = inconclusive.", ref="DESIGN.md §4 C10"),
  "C12": dict(tech="exhaustive enumeration of the 20 480-string move-shape space per generated position (in-process) + generated UCI sessions; libFuzzer target in thorough",
    text="Exploration with an exhaustive sub-space per case: uci_notation of every legal move equals the model's text and round-trips; for ALL strings [a-h][1-8][a-h][1-8][qrbn]? a string accepted by the membership test must be a legal text that names itself; through the binary `position … moves S` + show: legal text -> model successor, else 'Invalid move' and no third position.",
@@ -48,10 +48,10 @@ P.update({
    text="Exploration: generated go wtime/btime/winc/binc (log-uniform + boundaries, both sides, four field orders) and go movetime: `info time N` must exist with N <= the mover's clock (resp. movetime); short budgets run to completion (bestmove within N + grace), long ones answer isready and stop.",
    note="Only the allotted figure is decided exactly; wall-clock promptness sampled with grace 2 s (2-5 s inconclusive). Failures re-checked from a fresh process.", ref="DESIGN.md §4 C13"),
  "C14": dict(tech="model-based (state-machine) generation of UCI command sequences with generated command delays and stretched schedule points (hooks), history invariants on the transcript",
-   text="Exploration of schedules: 3-16 GUI intents interpreted by a GUI state machine, delays 0-100 ms, nine named schedule points stretched by 0/20/100 ms, isready bursts during the first millisecond of a search; invariants: one bestmove per accepted go within its deadline, isready always answered on its own line, refusals while searching, position+go after bestmove honoured, no stray bestmove, no panic, exit 0.",
+   text="Exploration of schedules: 3-16 GUI intents (incl. go depth+movetime whose timer outlives the search, ucinewgame and quit while searching) interpreted by a GUI state machine, delays 0-100 ms, nine named schedule points stretched by 0/20/100 ms, isready bursts during the first millisecond of a search; invariants: one bestmove per accepted go within its deadline and not before it (no answer to go infinite without stop, none to go movetime T well before T), isready always answered on its own line, refusals while searching, position+go after bestmove honoured, no stray bestmove, no panic, exit 0.",
    note="Only interleavings reachable by command timing and the named schedule points; not all schedules. Spliced output lines are decisive; timing failures are re-checked from a fresh process.", ref="DESIGN.md §4 C14"),
  "C15": dict(tech="generated stress inputs against a CHECKED build (debug assertions on) of harness and binary: model-guided high-mobility boards, maximal-length games, self-play, promoted-piece positions",
-   text="Exploration on a checked build: unsafe-precondition violations, arrayvec capacity assertions and Position assertions become panics/aborts; high-mobility boards (model-guided greedy to 200-260+ pseudo-legal moves), games of 380-398 plies + searches (399th ply must be refused), self-play from drawn endings until the process ends, promoted-piece positions.",
+   text="Exploration on a checked build: unsafe-precondition violations, arrayvec capacity assertions and Position assertions become panics/aborts; high-mobility boards (model-guided greedy to 200-260+ pseudo-legal moves), wild boards (anything the FEN reader accepts: pawns on rank 1/8, rights without rook or king, arbitrary en-passant file), games of 380-398 plies + searches incl. go depth 0 (399th ply must be refused), self-play from drawn endings until the process ends, promoted-piece positions.",
    note="Detects what debug assertions / unsafe precondition checks detect. A shard abort is reported through the in-flight case. Panics in search.rs/uci.rs checked indexing are left to C08/C14.", ref="DESIGN.md §4 C15"),
  "C16": dict(tech="differential property-based testing of score() against an independent piece-square sum over the reference board; colour-mirror metamorphic relation",
    text="Exploration: along generated games (import at a generated ply, push_history, search-style push/pop noise) score() of played and re-imported games must equal the independent sum with both kings by the same table; the mirrored game played alongside must score exactly the negation.",
@@ -63,7 +63,7 @@ P.update({
    text="Exploration: same histories as C06 (one shared table, in-process stdout capture and UCI sessions); every info pv line must be a sequence of moves legal one after another from the searched position.",
    note="Trusted base: reference model. Depth 1-5.", ref="DESIGN.md §4 C18"),
  "C19": dict(tech="metamorphic property-based testing: identical scripts under generated perturbations (nice, ASLR off, env padding, CPU pinning, schedule delays, load) and after history + ucinewgame; byte-identical transcripts",
-   text="Exploration: scripts of 1-4 fixed-depth searches run fresh, under a generated perturbation, and after an unrelated history + ucinewgame; the three transcripts (all info lines and bestmove) must be byte-identical.",
+   text="Exploration: scripts of 1-4 fixed-depth searches (plus four fixed deep scripts, depth 7-9) run fresh, under a generated perturbation (nice, ASLR off, environment padding, CPU pinning, schedule delays, process frozen 3.4 s mid-search), and after an unrelated history (sometimes ending with a still-pending timer) + ucinewgame; the three transcripts (all info lines and bestmove) must be byte-identical.",
    note="Perturbations are sampled, not enumerated.", ref="DESIGN.md §4 C19"),
  "C20": dict(tech="property-based differential testing of the show / Display text (hash, FEN, diagram, move-record tokens) against the reference model, in-process and through the binary",
    text="Exploration: generated games with all move kinds; Hash line = key-file combination, Fen fields 1-4 and diagram = model rendering, every move-record token parsed and compared with the model's move (piece, origin file, x iff capture, destination, promotion letter).",
